@@ -452,6 +452,21 @@ func ClauseOptions(yield func(name string, s S)) {
 	s = base()
 	s.From = []TableRef{{Name: "t1"}, {Sub: &q, Alias: "a1", Lateral: true}}
 	yield("from-lateral", s.Build())
+	// a derived table that is also the left operand of the first join, and derived tables on both sides
+	s = base()
+	s.From = []TableRef{{Sub: &q, Alias: "a1"}}
+	s.Joins = []Join{{Kw: "JOIN", Right: TableRef{Name: "t2"}, On: xp(Bin("=", QCol("a1", "c7"), QCol("t2", "c7")))}}
+	yield("from-derived-join", s.Build())
+	q2 := simpleSel("t6")
+	s = base()
+	s.From = []TableRef{{Sub: &q, Alias: "a1", AsKw: true}}
+	s.Joins = []Join{{Kw: "LEFT JOIN", Right: TableRef{Sub: &q2, Alias: "a2"}, On: xp(Bool("TRUE"))}, {Kw: "JOIN", Right: TableRef{Name: "t3"}, Using: []string{"c7"}}}
+	yield("from-derived-join-derived", s.Build())
+	// aliased pooled-shape expressions in the select list
+	s = base()
+	s.Items = []SelItem{{X: Subscript(Col("c1"), Int("1")), Alias: "a1", AsKw: true}, {X: Slice(Col("c2"), xp(Int("1")), xp(Int("2"))), Alias: "a2", AsKw: true},
+		{X: Tuple([]X{Col("c3"), Col("c4")}), Alias: "a3", AsKw: true}, {X: Array([]X{Int("1"), Int("2")}), Alias: "a4", AsKw: true}}
+	yield("aliased-pooled-shapes", s.Build())
 	// joins
 	for _, jk := range []string{"JOIN", "INNER JOIN", "LEFT JOIN", "LEFT OUTER JOIN", "RIGHT JOIN", "RIGHT OUTER JOIN", "FULL JOIN", "FULL OUTER JOIN"} {
 		s = base()
